@@ -238,23 +238,39 @@ package transport
 // ===========================================================================
 //@ macro hsOK(hs) = cyclistOK(hs.duplex) && hs.dh != nil && hs.kem != nil
 
+// A hash object is abstracted by the byte strings written to it so far (ghost map
+// hashAcc, keyed by the object); Sum(nil) is an uninterpreted function of that history.
+//@ ghost hashAcc map[Ref]Bytes
+//@ spec hEmpty() Bytes
+//@ spec hCat(acc Bytes, x Bytes) Bytes
+//@ spec hSum(acc Bytes) Bytes
+//@ spec bytes2(b0 uint8, b1 uint8) Bytes
+//@ axiom C19.two_bytes: forall a bytearr, o int :: rng(a, o, 2) == bytes2(a[o], a[o+1])
+
 //@ func (h hash.Hash) Write(p []byte) (n int, err error)
-//@   assume standard library (hash.Hash never fails)
-//@   modifies opaque(h)
+//@   assume standard library (hash.Hash never fails); history abstraction
+//@   modifies hashAcc
+//@   ensures err == nil && n == len(p) && hashAcc == update(old(hashAcc), ref(h), hCat(old(hashAcc)[ref(h)], bytes(p)))
 //@ func (h hash.Hash) Sum(b []byte) (out []byte)
-//@   assume standard library: SHA3-256 appends 32 bytes
-//@   modifies opaque(h)
-//@   ensures len(out) == len(b) + 32
-//@ func sha3.New256() (h hash.Hash)
-//@   assume standard library
+//@   assume standard library: SHA3-256 appends 32 bytes; history abstraction
 //@   pure
-//@   ensures h != nil
+//@   ensures len(out) == len(b) + 32
+//@   ensures len(b) == 0 ==> bytes(out) == hSum(hashAcc[ref(h)])
+//@ func sha3.New256() (h hash.Hash)
+//@   assume standard library; a new hash object has an empty history
+//@   pure
+//@   ensures h != nil && hashAcc[ref(h)] == hEmpty()
+
+// cookieAD: what a cookie is bound to - SHA3-256 over the client's KEM public key,
+// the source IP and the source port (big endian, 16 bit).
+//@ macro cookieAD(eph, ip, port) = hSum(hCat(hCat(hCat(hEmpty(), eph), ip), bytes2(uint8(port >> 8), uint8(port))))
 
 //@ func CookieAD(ephemeral []byte, clientAddr *net.UDPAddr) (ad []byte)
 //@   property C10 C19
 //@   requires clientAddr != nil
-//@   modifies opaque(clientAddr)
+//@   modifies hashAcc
 //@   ensures len(ad) == 32
+//@   ensures bytes(ad) == cookieAD(bytes(ephemeral), bytes(clientAddr.IP), clientAddr.Port)
 
 //@ func readVector(src []byte) (n int, v []byte, err error)
 //@   property C10 C02
@@ -293,15 +309,16 @@ package transport
 //@ func (hs *HandshakeState) writeCookie(b []byte, k []byte) (n int, err error)
 //@   property C10 C19
 //@   requires hs.kem != nil && hs.remoteAddr != nil && len(k) == 32
-//@   modifies b[:]
+//@   modifies b[:], hashAcc
 //@   ensures err == nil ==> n == 64
 //@   ensures err != nil ==> n == 0
 
 //@ func (hs *HandshakeState) decryptCookie(b []byte) (n int, k *[]byte, err error)
 //@   property C10 C19
 //@   requires hs.kem != nil && hs.remoteAddr != nil
-//@   modifies opaque(hs)
+//@   modifies hashAcc
 //@   ensures err == nil ==> n == 64 && k != nil && len(*k) == 32 && len(b) >= 64
+//@   ensures err == nil ==> openOK(bytes(hs.cookieKey), cookieAD(kemPubOf(ref(hs.kem.remoteEphemeral)), bytes(hs.remoteAddr.IP), hs.remoteAddr.Port), bytes(b[:64]))
 
 //@ func readPQClientHello(hs *HandshakeState, b []byte) (n int, err error)
 //@   property C10 C02
@@ -323,7 +340,9 @@ package transport
 //@ func (s *Server) ReplayPQDuplexFromCookie(cookie []byte, clientKemEphemeral keys.KEMPublicKey, clientAddr *net.UDPAddr) (hs *HandshakeState, err error)
 //@   property C10 C19 C02
 //@   requires clientAddr != nil && clientKemEphemeral != nil
+//@   atomic
 //@   ensures err == nil ==> hs != nil && hsOK(hs) && hs.duplex.mode == cyclist.Key && hs.remoteAddr == clientAddr
+//@   ensures err == nil ==> openOK(bytes(s.cookieKey), cookieAD(kemPubOf(ref(clientKemEphemeral)), bytes(clientAddr.IP), clientAddr.Port), bytes(cookie[:64]))
 
 //@ func (n *certs.Name) ReadFrom(r io.Reader) (k int64, err error)
 //@   assume name decoding (C11 / C18 cover it): changes only the name it fills
@@ -338,6 +357,11 @@ package transport
 //@   property C10 C19 C02
 //@   requires addr != nil
 //@   ensures err == nil ==> hs != nil && hsOK(hs) && hs.duplex.mode == cyclist.Key && n == 1172 && len(b) >= 1172 && hs.remoteAddr == addr
+//@   ensures err == nil ==> called(transport.Server.ReplayPQDuplexFromCookie) && resultof(transport.Server.ReplayPQDuplexFromCookie, err) == nil &&
+//@        argof(transport.Server.ReplayPQDuplexFromCookie, clientAddr) == addr &&
+//@        same(argof(transport.Server.ReplayPQDuplexFromCookie, cookie), b[836:900]) &&
+//@        kemPubOf(ref(argof(transport.Server.ReplayPQDuplexFromCookie, clientKemEphemeral))) == old(bytes(b[36:836]))
+//@   ensures err == nil ==> called(bytes.Equal) && resultof(bytes.Equal, r)
 
 // Configuration callbacks (application code): assumed to return usable certificates.
 //@ func transport.ServerConfig.GetCertificate(info ClientHandshakeInfo) (c *Certificate, err error)
@@ -384,6 +408,10 @@ package transport
 //@   property C10 C19
 //@   requires len(b) >= 4 && hs.dh != nil && hs.kem != nil
 //@   ensures err == nil ==> hsOK(hs) && hs.duplex.mode == cyclist.Key && hs.kem.remoteEphemeral != nil && n <= len(b)
+// (C19) accepted only if both the tag and the final MAC compared equal and the timestamp is at most 5 s old and not in the future
+//@   ensures err == nil ==> callcount(bytes.Equal) >= 2 && resultof(bytes.Equal, r)
+//@   ensures err == nil ==> resultof(binary.bigEndian.Uint64, v) <= uint64(resultof(time.Time.Unix, s)) &&
+//@        resultof(time.Time.Unix, s) - int64(resultof(binary.bigEndian.Uint64, v)) <= 5
 //@   loop 1
 //@     invariant c == nil && len(scratch) == len(b) && hs.dh != nil && hs.kem != nil && hs.dh == old(hs.dh) && hs.kem == old(hs.kem)
 //@     invariant len(b) >= 4 + 768 + encCertsLen + 16 + 800 + 8 + 16 && encCertsLen >= 0 && encCertsLen <= 65535
@@ -455,6 +483,24 @@ package transport
 //@ func (s *Server) readPacket(rawRead []byte, handshakeWriteBuf []byte) (err error)
 //@   property C10 C19 C01
 //@   requires len(rawRead) >= 65535 && len(handshakeWriteBuf) >= 65535
+//@   atomic
+// (C19) handshake and session state is created only from a client ack whose cookie verified
+// (readPQClientAck == nil) or a hidden request that verified; never from a client hello.
+//@   ensures called(transport.Server.setHandshakeState) ==>
+//@        (called(transport.Server.readPQClientAck) && resultof(transport.Server.readPQClientAck, err) == nil &&
+//@         argof(transport.Server.setHandshakeState, hs) == resultof(transport.Server.readPQClientAck, hs) &&
+//@         resultof(transport.Server.readPQClientAck, n) == resultof(transport.UDPLike.ReadMsgUDP, n) &&
+//@         argof(transport.Server.readPQClientAck, addr) == resultof(transport.UDPLike.ReadMsgUDP, addr)) ||
+//@        (called(transport.Server.handlePQClientRequestHidden) && resultof(transport.Server.handlePQClientRequestHidden, err) == nil &&
+//@         argof(transport.Server.setHandshakeState, hs) == resultof(transport.Server.handlePQClientRequestHidden, hs))
+//@   ensures called(transport.Server.handlePQClientHello) ==> !called(transport.Server.setHandshakeState) && !called(transport.Server.finishHandshake)
+//@   ensures called(transport.Server.finishHandshake) ==>
+//@        (called(transport.Server.readPQClientAuth) && resultof(transport.Server.readPQClientAuth, err) == nil) ||
+//@        (called(transport.Server.handlePQClientRequestHidden) && resultof(transport.Server.handlePQClientRequestHidden, err) == nil)
+// (C19) a hidden-mode server sends nothing unless a hidden request verified completely and had no trailing bytes.
+//@   ensures old(s.config.IsHidden) && called(transport.Server.writePacket) ==>
+//@        called(transport.Server.handlePQClientRequestHidden) && resultof(transport.Server.handlePQClientRequestHidden, err) == nil &&
+//@        resultof(transport.Server.handlePQClientRequestHidden, n) == resultof(transport.UDPLike.ReadMsgUDP, n)
 
 //@ func (u UDPLike) ReadMsgUDP(b []byte, oob []byte) (n int, oobn int, flags int, addr *net.UDPAddr, err error)
 //@   assume the socket: returns at most len(b) bytes and, on success, the sender's address
